@@ -36,7 +36,7 @@ def run(tier):
     common.replay_witnesses(ck, ["hook", "dev"])
     avoid = ck.findings.avoid_tags()
     n = {"chains": 1500, "expr": 1400, "expr-illtyped": 1200, "ctrl": 1200} if quick else \
-        {"chains": 40000, "expr": 40000, "expr-illtyped": 30000, "ctrl": 30000}
+        {"chains": 40000 * common.TS, "expr": 40000 * common.TS, "expr-illtyped": 30000 * common.TS, "ctrl": 30000 * common.TS}
     plist = []
     for name, prof in profiles(avoid):
         rng = ck.rng.fork(name)
@@ -48,11 +48,11 @@ def run(tier):
         plist.append({"name": name, "steps": [("snip", src)], "mods": []})
 
     r4 = ck.rng.fork("residue")
-    for i in range(400 if quick else 10000):
+    for i in range(400 if quick else 10000 * common.TS):
         plist.append({"name": "residue/%d" % i, "steps": [("snip", feat_residue.program(r4.fork(str(i))))], "mods": []})
 
     r5 = ck.rng.fork("order")
-    for i in range(400 if quick else 10000):
+    for i in range(400 if quick else 10000 * common.TS):
         plist.append({"name": "order/%d" % i, "steps": [("snip", feat_order.program(r5.fork(str(i))))], "mods": []})
 
     def seen(p, m, res):
